@@ -42,11 +42,28 @@ def group_env(verif_seed: int, g: int) -> dict:
     )
 
 
+_JOBDIR = None
+
+
+def jobdir() -> str:
+    """job / output files of this invocation: one directory per parent process, so that two checks
+    running at the same time (e.g. a soak and a manual run) never read each other's files"""
+    global _JOBDIR
+    if _JOBDIR is None:
+        _JOBDIR = os.path.join(OUT, "jobs", str(os.getpid()))
+        os.makedirs(_JOBDIR, exist_ok=True)
+        if not os.environ.get("PDT_VERIF_KEEP_JOBS"):
+            import atexit
+            import shutil
+
+            atexit.register(shutil.rmtree, _JOBDIR, True)
+    return _JOBDIR
+
+
 def spawn(job: dict, env_vec: dict, tag: str):
-    os.makedirs(os.path.join(OUT, "jobs"), exist_ok=True)
-    jf = os.path.join(OUT, "jobs", f"{tag}.job.json")
-    of = os.path.join(OUT, "jobs", f"{tag}.out.jsonl")
-    ef = os.path.join(OUT, "jobs", f"{tag}.err")
+    jf = os.path.join(jobdir(), f"{tag}.job.json")
+    of = os.path.join(jobdir(), f"{tag}.out.jsonl")
+    ef = os.path.join(jobdir(), f"{tag}.err")
     json.dump(job, open(jf, "w"))
     env = dict(os.environ)
     env.update(env_vec)
